@@ -23,8 +23,8 @@ RULE = (
 ASSUMPTIONS = ["no symlinks; outputs inside the project directory"]
 
 
-QUICK_BUDGET = {"cases": 640, "deadline_s": 170, "case_timeout_s": 60, "floors": {"clean_runs": 224, "files_compared": 5793, "remove_events_checked": 600, "declined_checked": 35}}
-THOROUGH_FACTOR = 56  # thorough = the same workload with 56x the cases (floors scale along)
+QUICK_BUDGET = {"cases": 3200, "deadline_s": 170, "case_timeout_s": 60, "floors": {"clean_runs": 1120, "files_compared": 28965, "remove_events_checked": 3000, "declined_checked": 175}}
+THOROUGH_FACTOR = 11  # thorough = the same workload with 11x the cases (floors scale along)
 
 
 def budget(tier):
